@@ -906,6 +906,471 @@ def conv_cases(ctx, rng, n):
 
 
 # ---------------------------------------------------------------------------------------
+# extension streams: _solve_eig, rbdispchk, mk_net_drms, rbmultchk, cbtf at 0 Hz
+
+
+def eig_cases(rng, n):
+    """symmetric (k, m) pairs with chosen null columns (zero in both) and massless DOF with stiffness"""
+    cases = []
+    for i in range(n):
+        nb = 6 * int(rng.choice([1, 2, 3]))
+        nq = int(rng.integers(1, 9))
+        nt = nb + nq
+        kind = ["none", "null", "massless", "both"][i % 4]
+        nnull = int(rng.integers(1, 4)) if kind in ("null", "both") else 0
+        nml = int(rng.integers(1, 5)) if kind in ("massless", "both") else 0
+        while nt - nnull - nml < 8:
+            nq += 1
+            nt += 1
+        A = rng.standard_normal((nt, nt + 3))
+        k = (A @ A.T) * 10 ** rng.uniform(2, 5)
+        B = rng.standard_normal((nt, nt))
+        m = (B @ B.T / nt + np.eye(nt)) * 10 ** rng.uniform(-1, 1)
+        sel = rng.permutation(nt)
+        z0, zm = np.sort(sel[:nnull]), np.sort(sel[nnull:nnull + nml])
+        k[z0, :] = 0
+        k[:, z0] = 0
+        m[z0, :] = 0
+        m[:, z0] = 0
+        m[zm, :] = 0
+        m[:, zm] = 0
+        if rng.random() < 0.3 and nml:
+            # a massless DOF whose mass column holds only a negative zero is still massless
+            m[zm[0], zm[0]] = -0.0
+        bset = np.sort(rng.choice(nt, nb, replace=False))
+        nred = nt - nnull - nml
+        cases.append(dict(kind=kind, k=k, m=m, bset=[int(x) for x in bset], null=[int(x) for x in z0],
+                          massless=[int(x) for x in zm], nff=int(rng.integers(6, min(10, nred - 1) + 1))))
+    return cases
+
+
+def run_solve_eig(c):
+    from pyyeti import cb
+
+    f = io.StringIO()
+    with warnings.catch_warnings():
+        warnings.simplefilter("ignore")
+        ff = cb._solve_eig(f, c["k"].copy(), c["m"].copy(), np.array(c["bset"]), c["nff"])
+    return ff, f.getvalue()
+
+
+def oracle_solve_eig(c):
+    """model-free: every returned pair is an eigenpair of the FULL pencil, with eigenvalues from its finite spectrum"""
+    out = []
+    inp = {"kind": "solve_eig", "k": np.asarray(c["k"]).tolist(), "m": np.asarray(c["m"]).tolist(), "bset": c["bset"], "nff": c["nff"]}
+    k, m = np.asarray(c["k"], float), np.asarray(c["m"], float)
+    cc = dict(c, k=k, m=m)
+    fam = "solve_eig-" + ("massless" if (~m.any(axis=0) & k.any(axis=0)).any() else "") + \
+        ("null" if (~m.any(axis=0) & ~k.any(axis=0)).any() else "") + "-eigenpairs"
+    try:
+        ff, txt = run_solve_eig(cc)
+    except Exception as e:  # noqa: BLE001
+        _fail(out, fam + "-raises-" + type(e).__name__, "_solve_eig raises on a symmetric pencil", inp, repr(e)[:200], "eigenpairs")
+        return out
+    pt = pencil_truth(k, m, 0)
+    w, v = ff.w, ff.v
+    sc = max(np.abs(k).max() * np.abs(v).max(), 1e-300)
+    res = np.abs(k @ v - (m @ v) * w).max() / sc
+    if v.shape != (k.shape[0], len(w)) or not res <= 1e-7:
+        _fail(out, fam, "K v = w M v does not hold on the full matrices for the back-expanded eigenvectors", inp,
+              {"residual": float(res), "shape": list(v.shape)}, "<= 1e-7 relative")
+    want = pt["w"]
+    order = np.argsort(np.abs(want - 1.0))[:len(w)]
+    if len(want) != pt["nred"] or not np.allclose(np.sort(w), np.sort(want[order]), rtol=1e-7, atol=1e-9 * np.abs(want).max()):
+        _fail(out, fam.replace("eigenpairs", "eigenvalues"), "eigenvalues are not the finite eigenvalues of (K, M) closest to the shift", inp,
+              np.sort(w).tolist(), np.sort(want[order]).tolist())
+    if pt["null"] and np.abs(v[pt["null"]]).max() != 0:
+        _fail(out, fam, "rows of the eigenvectors on null DOF are not zero", inp, float(np.abs(v[pt["null"]]).max()), 0.0)
+    if ff.k.shape[0] != pt["nred"]:
+        _fail(out, fam, "size of the reduced problem", inp, ff.k.shape[0], pt["nred"])
+    return out
+
+
+def rbdisp_cases(rng, n):
+    cases = []
+    for i in range(n):
+        nn = int(rng.integers(1, 6))
+        L = 10 ** rng.uniform(-1, 2)
+        tol = [1e-4, 1e-4, 1e-3, 1e-5][int(rng.integers(0, 4))]
+        rows, ds, kinds = [], [], []
+        for j in range(nn):
+            basis = str(rng.choice(["identity", "rotation", "general"]))
+            if basis == "identity":
+                F = np.eye(3)
+            elif basis == "rotation":
+                F = rand_rot(rng)
+            else:
+                F = rand_rot(rng) @ np.diag(rng.uniform(0.5, 2.0, 3)) @ rand_rot(rng)
+            d = rng.uniform(-1, 1, 3) * L
+            if rng.random() < 0.1:
+                d[:] = 0.0
+            blk = np.hstack([F, -F @ skew(d)])
+            pk = ["exact", "exact", "small", "large"][int(rng.integers(0, 4))]
+            if pk != "exact":
+                mag = 10 ** (rng.uniform(-8, -5.5) if pk == "small" else rng.uniform(-2.5, -0.5)) * L
+                E = rng.standard_normal((3, 3))
+                blk[:, 3:] += F @ (E / np.abs(E).max() * mag)
+            rows.append(blk)
+            ds.append(d)
+            kinds.append(basis + "-" + pk)
+        cases.append(dict(rbdisp=np.vstack(rows), d=np.array(ds), tol=tol, kinds=kinds, L=L,
+                          grids=[100 + 7 * j for j in range(nn)] if rng.random() < 0.5 else None))
+    return cases
+
+
+def run_rbdisp(c):
+    from pyyeti import cb
+
+    f = io.StringIO()
+    coords, errs = cb.rbdispchk(f, np.asarray(c["rbdisp"], float), grids=c["grids"], verbose=True, tol=c["tol"])
+    return coords, errs, f.getvalue()
+
+
+def oracle_rbdisp(c):
+    out = []
+    rb = np.asarray(c["rbdisp"], float)
+    inp = {"kind": "rbdisp", "rbdisp": rb.tolist(), "d": np.asarray(c["d"]).tolist(), "tol": c["tol"], "kinds": c["kinds"],
+           "grids": c["grids"], "L": c["L"]}
+    try:
+        coords, errs, txt = run_rbdisp(dict(c, rbdisp=rb))
+    except Exception as e:  # noqa: BLE001
+        _fail(out, "rbdispchk-raises-" + type(e).__name__, "rbdispchk raises on non-singular translation blocks", inp, repr(e)[:200], "coordinates")
+        return out
+    L = c["L"]
+    d = np.asarray(c["d"], float)
+    nwarn = txt.count("Warning: deviation from standard pattern")
+    exp_warn = 0
+    for j, kd in enumerate(c["kinds"]):
+        basis, pk = kd.rsplit("-", 1)
+        # the deviation from the pattern, directly from the rows (in the reference axes)
+        R = np.linalg.solve(rb[3 * j:3 * j + 3, :3], rb[3 * j:3 * j + 3, 3:])
+        dev = max(np.abs(np.diag(R)).max(), abs(R[1, 2] + R[2, 1]), abs(R[2, 0] + R[0, 2]), abs(R[0, 1] + R[1, 0]))
+        if pk == "exact":
+            if not np.all(np.abs(coords[j] - d[j]) <= 1e-9 * max(L, 1e-30)) or not errs[j] <= 1e-9 * L:
+                _fail(out, "rbdispchk-coords-" + basis, "rbdispchk does not recover the offset of a node from exact rigid-body rows", inp,
+                      {"coords": coords[j].tolist(), "err": float(errs[j])}, {"coords": d[j].tolist(), "err": 0.0})
+        elif not abs(errs[j] - dev) <= 1e-6 * dev + 1e-12 * L:
+            _fail(out, "rbdispchk-error-" + basis, "reported deviation from the rigid-body pattern", inp, float(errs[j]), float(dev))
+        thr = np.abs(coords[j]).max() * c["tol"]
+        if exp_warn is None or abs(dev - thr) <= 0.02 * thr + 1e-13 * L:
+            exp_warn = None  # on the threshold (or both round-off): not decidable from outside
+        elif dev > thr:
+            exp_warn += 1
+    if exp_warn is not None and nwarn != exp_warn:
+        _fail(out, "rbdispchk-warning", "number of pattern warnings (deviation > tol * max |coordinate|)", inp, nwarn, exp_warn)
+    return out
+
+
+def net_cases(rng, n):
+    cases = []
+    tries = 0
+    while len(cases) < n and tries < 5 * n:
+        tries += 1
+        spec = gen_spec(rng)
+        spec.update(variant="valid", reorder=True, rbnorm=None, uref="origin", conv=None)
+        spec["gridperm"] = [int(x) for x in rng.permutation(spec["nbg"])]
+        opt = dict(conv=[None, None, "m2e", "e2m", [float(10 ** rng.uniform(-1, 1.5)), float(10 ** rng.uniform(-2, 2))]][int(rng.integers(0, 5))],
+                   sub=bool(rng.random() < 0.3 and spec["nbg"] > 1),
+                   ref=str(rng.choice(["vec", "id", "origin"])),
+                   sccoord=bool(rng.random() < 0.3), seed=[int(x) for x in rng.integers(0, 2 ** 31, 2)])
+        cases.append(dict(spec=spec, opt=opt))
+    return cases
+
+
+def build_net(c):
+    """inputs of mk_net_drms for a generated structure: the b-set vector in any order, the uset in THAT order"""
+    spec, opt = c["spec"], c["opt"]
+    case = build_case(spec)
+    rng = np.random.default_rng(opt["seed"])
+    perm = spec["gridperm"]
+    bgr = [case["bgrids"][g] for g in perm]
+    ids = [10 * (i + 1) for i in range(len(perm))]  # a uset table lists its grids by ascending id
+    uset = make_uset(case["st"], bgr, ids)
+    nbg = spec["nbg"]
+    if opt["sub"]:
+        keepg = np.sort(rng.choice(nbg, int(rng.integers(1, nbg)), replace=False))
+        bsub = np.concatenate([np.arange(6 * g, 6 * g + 6) for g in keepg])
+    else:
+        keepg, bsub = np.arange(nbg), None
+    if opt["ref"] == "id":
+        gi = int(rng.choice(keepg))  # (a reference grid outside `bsubset` is a KeyError in rbgeom_uset)
+        ref, ref_xyz = ids[gi], case["st"]["xyz"][bgr[gi]]
+    elif opt["ref"] == "vec":
+        ref_xyz = rng.uniform(-1, 1, 3) * case["st"]["L"]
+        ref = [float(x) for x in ref_xyz]
+    else:
+        ref, ref_xyz = [0, 0, 0], np.zeros(3)
+    sc = rand_rot(rng) if opt["sccoord"] else None
+    return dict(case=case, uset=uset, bset=case["bseto"], bsub=bsub, keepg=keepg, ref=ref, ref_xyz=np.asarray(ref_xyz, float),
+                sccoord=sc, bgr=bgr, ids=ids)
+
+
+def run_net(nb_, conv):
+    from pyyeti import cb
+
+    case = nb_["case"]
+    if isinstance(conv, list):
+        conv = tuple(conv)
+    with warnings.catch_warnings(record=True) as wl:
+        warnings.simplefilter("always")
+        # an RBE3 on the translations of two grids cannot see the rotation about the line through them
+        indep = 123456 if len(nb_["keepg"]) == 2 else None
+        out = cb.mk_net_drms(case["Min"].copy(), case["Kin"].copy(), nb_["bset"].copy(), bsubset=nb_["bsub"], uset=nb_["uset"],
+                             ref=nb_["ref"], sccoord=nb_["sccoord"], conv=conv, reorder=False, g=9.80665 / 0.0254,
+                             rbe3_indep_dof=indep)
+    grounding = any("grounding forces" in str(w.message) for w in wl)
+    return out, grounding
+
+
+def net_request(nb_, conv, mat):
+    case = nb_["case"]
+    cf = conv_factors(conv)
+    n, nb = case["n"], case["nb"]
+    sub = nb_["bsub"] if nb_["bsub"] is not None else np.arange(nb)
+    parts = ["netdrm", str(nb), str(len(sub)), str(n), ("1 " + bits(cf)) if cf else "0", ints(nb_["bset"]), ints(sub),
+             bits(nb_["uset"].loc[:, "x":"z"].values), bits(nb_["ref_xyz"]), bits(mat)]
+    return " ".join(parts)
+
+
+def oracle_net(c):
+    """mk_net_drms against the generator's ground truth: net force = resultant at the reference point of the boundary
+    forces, rigid-body acceleration gives the rigid mass / unit interface acceleration / the cg motion, weight, height,
+    unit conversion keeps the physics"""
+    out = []
+    inp = {"kind": "netdrm", "spec": c["spec"], "opt": c["opt"]}
+    nb_ = build_net(c)
+    case, opt = nb_["case"], c["opt"]
+    st = case["st"]
+    tags = [t for t, on in (("conv", opt["conv"] is not None), ("bsubset", opt["sub"]), ("sccoord", opt["sccoord"])) if on]
+    fam = "mk_net_drms-" + ("-".join(tags) if tags else "plain")
+    try:
+        res, grounding = run_net(nb_, opt["conv"])
+    except Exception as e:  # noqa: BLE001
+        _fail(out, fam + "-raises-" + type(e).__name__, "mk_net_drms raises on a well-formed model", inp, repr(e)[:200], "a result")
+        return out
+    if grounding and c["spec"]["nbg"] > 1:
+        # (with one boundary grid Kbb is round-off only and the relative test of the routine has nothing to compare with)
+        _fail(out, fam + "-grounding-warning", "mk_net_drms warns about grounding forces on a free model with exact geometry", inp,
+              "RuntimeWarning", "no warning")
+    n, nb = case["n"], case["nb"]
+    bset = np.asarray(nb_["bset"])
+    g0 = 9.80665 / 0.0254
+    cf = conv_factors(opt["conv"])
+    lc, mc = cf if cf else (1.0, 1.0)
+    # physical truth in s/c units: boundary rows of T (identity), generator geometry
+    RB = np.vstack([(st["G"][6 * g:6 * g + 6, 6 * g:6 * g + 6]).T @ rb6(st["xyz"][g], nb_["ref_xyz"]) for g in nb_["bgr"]])  # nb x 6
+    sub = nb_["bsub"] if nb_["bsub"] is not None else np.arange(nb)
+    M, K = case["Min"], case["Kin"]
+    rng = np.random.default_rng(opt["seed"] + [5])
+    acc = rng.standard_normal(n)
+    Fb = M[bset[sub]] @ acc  # boundary forces on the interface subset for this acceleration
+    want = RB[sub].T @ Fb
+    T6 = np.eye(6)
+    if nb_["sccoord"] is not None:
+        T6 = np.zeros((6, 6))
+        T6[:3, :3] = nb_["sccoord"]
+        T6[3:, 3:] = nb_["sccoord"]
+        T6 = T6  # Tsc2lv = Tlv2sc.T with Tlv2sc = blockdiag(sccoord): lv = sccoord.T @ sc
+        T6 = np.block([[nb_["sccoord"].T, np.zeros((3, 3))], [np.zeros((3, 3)), nb_["sccoord"].T]])
+    fsc = max(np.abs(want).max(), 1e-300)
+    # s/c matrix: with conv it takes l/v-unit accelerations (DRM conversion), forces stay in s/c units
+    Cd = np.ones(n)
+    pos = {int(x): kk for kk, x in enumerate(bset)}
+    for i in range(n):
+        Cd[i] = ((1 / lc) if pos[i] % 6 < 3 else 1.0) if i in pos else 1 / (math.sqrt(mc) * lc)
+    acc_lv = acc / Cd
+    got = res.ifltma_sc @ (acc_lv if cf else acc)
+    if not _close(got, want, 1e-9, fsc)[0]:
+        _fail(out, fam + "-net-force", "ifltma_sc @ a is not the resultant at `ref` of the boundary forces Mcb[b] @ a", inp,
+              got.tolist(), want.tolist())
+    Dn = np.array([mc * lc] * 3 + [mc * lc * lc] * 3)
+    got = res.ifltma_lv @ acc_lv
+    if not _close(got, T6 @ (Dn * want), 1e-9, np.abs(Dn * want).max())[0]:
+        _fail(out, fam + "-net-force-lv", "ifltma_lv @ a (l/v units and axes) is not the converted, rotated resultant", inp,
+              got.tolist(), (T6 @ (Dn * want)).tolist())
+    if nb_["bsub"] is None:
+        ksc = max(np.abs(K).max(), 1e-300) * max(1.0, np.abs(RB).max())
+        if np.abs(res.ifltmd_sc).max() > 1e-8 * ksc or np.abs(res.ifltmd_lv).max() > 1e-8 * ksc * mc * lc * lc * max(1.0, 1 / lc):
+            _fail(out, fam + "-ifltmd-nonzero", "displacement-dependent net force of a free model is not zero", inp,
+                  float(np.abs(res.ifltmd_sc).max()), 0.0)
+        # rigid-body acceleration about `ref`: net force = rigid mass, net interface acceleration = identity, cg motion
+        a_rb = np.zeros((n, 6))
+        a_rb[bset] = RB
+        mass6 = RB.T @ M[np.ix_(bset, bset)] @ RB
+        got = res.ifltma_sc @ (a_rb / Cd[:, None] if cf else a_rb)
+        if not _close(got, mass6, 1e-9)[0]:
+            _fail(out, fam + "-rigid-mass", "ifltma_sc applied to rigid-body acceleration is not the 6x6 rigid mass about `ref`", inp,
+                  got.tolist(), mass6.tolist())
+        a_rb_lv = a_rb / Cd[:, None] / (np.array([lc] * 3 + [1.0] * 3) if cf else 1.0)
+        # a_rb_lv: unit rigid accelerations in l/v units (1 length_lv/s^2, 1 rad/s^2) about the converted reference
+        RBlv = a_rb_lv[bset]
+        got = res.ifatm_sc @ a_rb_lv
+        wantI = np.diag([1 / g0] * 3 + [1.0] * 3)
+        if not _close(got, wantI, 1e-8, 1.0)[0]:
+            # F-new: with a single boundary grid the RBE3 columns are written to columns 0..5, whatever `bset` says
+            single_off = nb == 6 and not np.array_equal(np.sort(bset), np.arange(6))
+            _fail(out, "mk_net_drms-ifatm-single-grid-bset-not-leading" if single_off else fam + "-ifatm",
+                  "net interface acceleration of a unit rigid-body acceleration is not the unit (in g)", inp,
+                  got.tolist(), wantI.tolist())
+        masses = st["masses"]
+        if not c["spec"]["aniso"]:
+            cg = (masses[:, None] * st["xyz"]).sum(axis=0) / masses.sum()
+            dcg = (cg - nb_["ref_xyz"]) * lc
+            if not _close(res.cg_sc, dcg, 1e-8, max(np.abs(dcg).max(), 1e-3 * st["L"] * lc))[0]:
+                _fail(out, fam + "-cg", "cg_sc is not the mass-weighted centroid relative to `ref`", inp, np.asarray(res.cg_sc).tolist(), dcg.tolist())
+            wantcg = rb6(dcg, np.zeros(3))
+            wantcg[:3] /= g0
+            got = res.cgatm_sc @ a_rb_lv
+            if not _close(got[:3], wantcg[:3], 1e-8, max(1.0 / g0, np.abs(wantcg[:3]).max()))[0]:
+                _fail(out, fam + "-cgatm", "net cg acceleration of a unit rigid-body acceleration is not the motion of the cg", inp,
+                      got.tolist(), wantcg.tolist())
+            elif not _close(got[3:], wantcg[3:], 1e-8, 1.0)[0]:
+                # F-new: the rigid-body modes "relative to the cg" are formed about the point whose BASIC coordinates are the
+                # cg offset from `ref`; that is the cg only when `ref` is the basic origin
+                f2 = "mk_net_drms-cgatm-rotation-rows-ref-not-origin" if np.any(nb_["ref_xyz"] != 0) else fam + "-cgatm-rotation"
+                _fail(out, f2, "rotational rows of cgatm_sc applied to a unit rigid-body acceleration are not [0 I]: the moments are "
+                      "not taken about the cg", inp, got[3:].tolist(), wantcg[3:].tolist())
+            wl, hl = masses.sum() * mc * g0, np.abs(dcg).max()
+            if abs(res.weight_lv - wl) > 1e-9 * wl or abs(res.height_lv - hl) > 1e-8 * max(hl, 1e-3 * st["L"] * lc) or \
+                    abs(res.weight_sc - wl / (mc * lc)) > 1e-9 * wl / (mc * lc) or abs(res.height_sc - hl / lc) > 1e-8 * max(hl, 1e-3 * st["L"] * lc) / lc:
+                _fail(out, fam + "-weight-height", "weight / cg height", inp,
+                      [float(res.weight_sc), float(res.height_sc), float(res.weight_lv), float(res.height_lv)],
+                      [wl / (mc * lc), hl / lc, wl, hl])
+    return out
+
+
+def rbmult_cases(rng, n):
+    cases = []
+    for i in range(n):
+        nb = 6 * int(rng.integers(1, 4))
+        nq = int(rng.choice([0, 0, 3, 7]))
+        mode = ["first", "last", "vector", "full"][i % 4]
+        nr = int(rng.integers(1, 9))
+        nc = nb + nq
+        drm = rng.standard_normal((nr, nc)) * 10 ** rng.uniform(-2, 3)
+        if rng.random() < 0.3 and nr > 1:
+            drm[int(rng.integers(0, nr))] = 0.0  # a NULL row
+        rb = rng.standard_normal((nc if mode == "full" else nb, 6))
+        bset = sorted(int(x) for x in rng.choice(nc, nb, replace=False)) if mode == "vector" else mode
+        cases.append(dict(mode=mode, drm=drm, rb=rb, bset=bset, nb=nb, nc=nc))
+    return cases
+
+
+def run_rbmult(c):
+    from pyyeti import cb
+
+    f = io.StringIO()
+    bset = np.array(c["bset"]) if isinstance(c["bset"], list) else ("first" if c["bset"] == "full" else c["bset"])
+    with warnings.catch_warnings():
+        warnings.simplefilter("ignore")
+        return cb.rbmultchk(f, np.asarray(c["drm"], float), "DRM", np.asarray(c["rb"], float), bset=bset), f.getvalue()
+
+
+def oracle_rbmult(seed):
+    """the docstring use of rbmultchk: a displacement recovery matrix built from point locations, times the rigid-body
+    modes of the boundary grid, is the rigid-body motion of the points; the printed extreme coordinates are theirs"""
+    out = []
+    rng = np.random.default_rng(seed)
+    npts = int(rng.integers(1, 6))
+    L = 10 ** rng.uniform(0, 2)
+    pts = np.round(rng.uniform(-1, 1, (npts, 3)) * L, 3)
+    bpt = np.round(rng.uniform(-1, 1, 3) * L, 3)
+    nq = int(rng.choice([0, 4]))
+    atm = np.vstack([rb6(p, bpt) for p in pts])  # motion of the points for unit motion of the boundary grid
+    where = str(rng.choice(["first", "last"]))
+    Q = rng.standard_normal((atm.shape[0], nq))
+    drm = np.hstack([atm, Q]) if where == "first" else np.hstack([Q, atm])
+    ref = np.round(rng.uniform(-1, 1, 3) * L, 3)
+    rb = rb6(bpt, ref)  # rigid-body modes of the boundary grid about `ref`
+    inp = {"kind": "rbmult", "seed": [int(x) for x in np.atleast_1d(seed)]}
+    try:
+        got, txt = run_rbmult(dict(drm=drm, rb=rb, bset=where))
+    except Exception as e:  # noqa: BLE001
+        _fail(out, "rbmultchk-raises-" + type(e).__name__, "rbmultchk raises on a displacement recovery matrix", inp, repr(e)[:200], "drm @ rb")
+        return out
+    want = np.vstack([rb6(p, ref) for p in pts])
+    if not _close(got, want, 1e-12, max(1.0, np.abs(want).max()))[0]:
+        _fail(out, "rbmultchk-b" + where, "DRM times rigid-body modes is not the rigid-body motion of the recovered points", inp,
+              got.tolist(), want.tolist())
+    i = txt.find("Minimums:")
+    j = txt.find("Maximums:")
+    rel = pts - ref
+    if i < 0 or j < 0:
+        _fail(out, "rbmultchk-coordinates", "extreme coordinate table missing for rows that follow the rigid-body pattern", inp, None, "table")
+    else:
+        mn = np.array([float(t) for t in re.findall(_NUM, txt[i:].split("\n")[0].split(":")[1])])
+        mx = np.array([float(t) for t in re.findall(_NUM, txt[j:].split("\n")[0].split(":")[1])])
+        if not (np.all(np.abs(mn - rel.min(axis=0)) <= 0.6e-4 + 1e-9 * L) and np.all(np.abs(mx - rel.max(axis=0)) <= 0.6e-4 + 1e-9 * L)):
+            _fail(out, "rbmultchk-coordinates", "printed extreme coordinates are not those of the recovered points (relative to the "
+                  "reference of the rigid-body modes)", inp, [mn.tolist(), mx.tolist()], [rel.min(axis=0).tolist(), rel.max(axis=0).tolist()])
+    return out
+
+
+def cbtf0_cases(rng, n):
+    cases = []
+    for i in range(n):
+        nb = int(rng.choice([1, 3, 6, 12]))
+        nq = int(rng.integers(1, 8))
+        nt = nb + nq
+        A = rng.standard_normal((nt, nt))
+        M = A @ A.T / nt + np.eye(nt)
+        K = np.zeros((nt, nt))
+        Bm = np.zeros((nt, nt))
+        layout = ["first", "last", "mixed"][i % 3]
+        pos_b = np.arange(nb) if layout == "first" else (np.arange(nq, nt) if layout == "last" else np.sort(rng.choice(nt, nb, replace=False)))
+        pos_q = np.setdiff1d(np.arange(nt), pos_b)
+        Cq = rng.standard_normal((nq, nq))
+        K[np.ix_(pos_q, pos_q)] = (Cq @ Cq.T + nq * np.eye(nq)) * 10 ** rng.uniform(1, 4)
+        Cb = rng.standard_normal((nb, nb))
+        K[np.ix_(pos_b, pos_b)] = Cb @ Cb.T * 10 ** rng.uniform(1, 4)
+        D = rng.standard_normal((nt, nt))
+        Bm = D @ D.T * 0.05
+        bset = pos_b.copy()
+        if rng.random() < 0.4:
+            bset = rng.permutation(bset)
+        a = rng.standard_normal(nb)
+        cases.append(dict(M=M, B=Bm, K=K, bset=[int(x) for x in bset], a=a, layout=layout,
+                          freq=[0.0] if rng.random() < 0.5 else [0.0, float(rng.uniform(0.5, 5))]))
+    return cases
+
+
+def run_cbtf0(c):
+    from pyyeti import cb
+
+    with warnings.catch_warnings():
+        warnings.simplefilter("ignore")
+        return cb.cbtf(np.asarray(c["M"], float), np.asarray(c["B"], float), np.asarray(c["K"], float), np.asarray(c["a"], float),
+                       np.asarray(c["freq"], float), np.array(c["bset"]))
+
+
+def oracle_cbtf0(c):
+    out = []
+    M, K = np.asarray(c["M"], float), np.asarray(c["K"], float)
+    bset = np.array(c["bset"])
+    a = np.asarray(c["a"], float)
+    inp = {"kind": "cbtf0", "M": M.tolist(), "B": np.asarray(c["B"]).tolist(), "K": K.tolist(), "bset": c["bset"], "a": a.tolist(),
+           "freq": c["freq"], "layout": c["layout"]}
+    try:
+        tf = run_cbtf0(c)
+    except Exception as e:  # noqa: BLE001
+        _fail(out, "cbtf-static-raises-" + type(e).__name__, "cbtf raises at 0 Hz", inp, repr(e)[:200], "a result")
+        return out
+    qset = np.setdiff1d(np.arange(M.shape[0]), bset)
+    frc = M[np.ix_(bset, bset)] @ a
+    dq = -np.linalg.solve(K[np.ix_(qset, qset)], M[np.ix_(qset, bset)] @ a)
+    imag = max(np.abs(np.imag(x)).max() for x in (tf.frc[:, 0], tf.d[:, 0], tf.a[:, 0]))
+    ok = (_close(np.real(tf.frc[:, 0]), frc, 1e-9)[0] and _close(np.real(tf.d[qset, 0]), dq, 1e-8)[0]
+          and np.abs(tf.d[bset, 0]).max() == 0 and imag <= 1e-12 * max(np.abs(frc).max(), 1e-300)
+          and np.abs(tf.v[:, 0]).max() == 0 and np.abs(tf.a[qset, 0]).max() <= 1e-12 * max(np.abs(a).max(), 1e-300)
+          and _close(np.real(tf.a[bset, 0]), a, 1e-14)[0])
+    if not ok:
+        _fail(out, "cbtf-static-limit-b" + c["layout"], "at 0 Hz the force is not Mbb a with the statically deflected modal DOF "
+              "(d_q = -Kqq^-1 Mqb a, zero velocity, zero boundary displacement)", inp,
+              {"frc": np.real(tf.frc[:, 0]).tolist(), "dq": np.real(tf.d[qset, 0]).tolist()}, {"frc": frc.tolist(), "dq": dq.tolist()})
+    return out
+
+
+# ---------------------------------------------------------------------------------------
 # correspondence
 
 
@@ -1235,6 +1700,57 @@ def correspondence(ctx):
         cb_cases.append(case)
         req.append(cbcheck_request(case))
 
+    # --- G: _solve_eig (null columns, Guyan reduction of massless DOF, back expansion) ---------------
+    rng = ctx.np_rng(7)
+    eg_cases = []
+    for c in eig_cases(rng, ctx.pick(48, 400)):
+        zz = np.ix_(c["massless"], c["massless"])
+        if c["massless"] and np.linalg.cond(c["k"][zz]) > 1e6:
+            ctx.skip("solve_eig: stiffness of the massless DOF ill-conditioned")
+            continue
+        try:
+            ff, txt = run_solve_eig(c)
+        except Exception as e:  # noqa: BLE001 - the model has no exception here
+            ctx.disagree("solve_eig", {"bset": c["bset"], "null": c["null"], "massless": c["massless"]},
+                         "exception %s: %s" % (type(e).__name__, str(e)[:200]), "a result")
+            continue
+        c["ff"], c["txt"] = ff, txt
+        nt = c["k"].shape[0]
+        eg_cases.append(c)
+        req.append("solveeig %d %d %d %s %s %s %s" % (nt, len(c["bset"]), ff.v.shape[1], ints(c["bset"]), bits(c["m"]), bits(c["k"]),
+                                                      bits(ff.v)))
+    # --- H: rbdispchk ------------------------------------------------------------------------------
+    rng = ctx.np_rng(8)
+    rd_cases = rbdisp_cases(rng, ctx.pick(150, 1500))
+    for c in rd_cases:
+        req.append("rbdisp %d %s %s" % (len(c["kinds"]), bits([c["tol"]]), bits(c["rbdisp"])))
+    # --- I: mk_net_drms ------------------------------------------------------------------------------
+    rng = ctx.np_rng(9)
+    nt_cases = []
+    for c in net_cases(rng, ctx.pick(36, 300)):
+        nb_ = build_net(c)
+        if nb_["case"]["red"]["cond"] > 1e8:
+            ctx.skip("net drm: structure outside conditioning domain")
+            continue
+        c["nb_"] = nb_
+        nt_cases.append(c)
+        req.append(net_request(nb_, c["opt"]["conv"], nb_["case"]["Min"]))
+        req.append(net_request(nb_, c["opt"]["conv"], nb_["case"]["Kin"]))
+    # --- J: rbmultchk ----------------------------------------------------------------------------------
+    rng = ctx.np_rng(10)
+    rm_cases = rbmult_cases(rng, ctx.pick(80, 800))
+    for c in rm_cases:
+        bs = c["bset"] if isinstance(c["bset"], list) else (list(range(c["nb"])) if c["bset"] in ("first",) else
+                                                            (list(range(c["nc"] - c["nb"], c["nc"])) if c["bset"] == "last" else
+                                                             list(range(c["nc"]))))
+        c["bs"] = bs
+        req.append("rbmult %d %d %d %s %s %s" % (c["drm"].shape[0], c["nc"], len(bs), ints(bs), bits(c["drm"]), bits(c["rb"])))
+    # --- K: cbtf at 0 Hz ----------------------------------------------------------------------------------
+    rng = ctx.np_rng(11)
+    c0_cases = cbtf0_cases(rng, ctx.pick(60, 600))
+    for c in c0_cases:
+        req.append("cbtf0 %d %d %s %s %s" % (c["M"].shape[0], len(c["bset"]), ints(c["bset"]), bits(c["a"]), bits(c["M"])))
+
     rep = drv.ask(req)
     if any(r == "bad-op" for r in rep):
         raise Infra("C06 driver rejected request %r" % req[rep.index("bad-op")][:60])
@@ -1321,6 +1837,120 @@ def correspondence(ctx):
             continue
         compare_cbcheck(ctx, cmp, case, out, txt, mo)
         ctx.sample({"cbcheck_spec": spec, "n": case["n"], "refchk": mo["chk"]}, cap=4)
+    # G
+    worst_psi = 0.0
+    for c in eg_cases:
+        t = rep[k].split(" ")
+        k += 1
+        ff, txt = c["ff"], c["txt"]
+        nt, p = c["k"].shape[0], ff.v.shape[1]
+        n1, nx, nzm = int(t[0]), int(t[1]), int(t[2])
+        ii = [int(x) for x in t[3:3 + n1 + nx + nzm + nx]]
+        keep, xs, zs, bflag = ii[:n1], ii[n1:n1 + nx], ii[n1 + nx:n1 + nx + nzm], ii[n1 + nx + nzm:]
+        fl = unbits(t[3 + n1 + 2 * nx + nzm:])
+        kred, mred = fl[:nx * nx].reshape(nx, nx), fl[nx * nx:2 * nx * nx].reshape(nx, nx)
+        off = 2 * nx * nx + nzm * nx
+        presid, vexp = fl[off], fl[off + 1:].reshape(nt, p)
+        inp = {"bset": c["bset"], "null": c["null"], "massless": c["massless"], "n": nt, "kind": c["kind"]}
+        null_model = [i for i in range(nt) if i not in set(keep)]
+        if (_pv_line(txt, "Trimming out null columns") or []) != null_model:
+            ctx.disagree("solve_eig-null", inp, _pv_line(txt, "Trimming out null columns"), null_model)
+        if (_pv_line(txt, "There are massless DOF with stiffness.") or []) != zs:
+            ctx.disagree("solve_eig-massless", inp, _pv_line(txt, "There are massless DOF with stiffness."), zs)
+        if [int(x) for x in ff.b] != bflag or [int(x) for x in ff.q] != [1 - x for x in bflag]:
+            ctx.disagree("solve_eig-bq", inp, [int(x) for x in ff.b], bflag)
+        ksc = np.abs(c["k"]).max()
+        cmp("solve_eig-k", "reduced stiffness", inp, ff.k, kred, ksc)
+        cmp("solve_eig-m", "reduced mass", inp, ff.m, mred, None, 1e-15)
+        cmp("solve_eig-v", "back-expanded eigenvectors", inp, ff.v, vexp, max(np.abs(ff.v).max(), 1e-300))
+        worst_psi = max(worst_psi, presid / ksc)
+        if not presid <= 1e-9 * ksc:
+            ctx.disagree("solve_eig-psi-spec", inp, {"residual of (-kzz) psi = kzx": float(presid)}, "<= 1e-9 * max|k|")
+        ctx.case(("solveeig", k), branch="solve_eig-direct:" + c["kind"])
+    ctx.extra["worst_psi_residual"] = worst_psi
+    # H
+    for c in rd_cases:
+        nn = len(c["kinds"])
+        coords, errs, txt = run_rbdisp(c)
+        inp = {"rbdisp": c["rbdisp"].tolist(), "tol": c["tol"]}
+        k += 1
+        if rep[k - 1] == "raise-singular":
+            ctx.disagree("rbdispchk", inp, "a result", "raise-singular")
+            continue
+        t = rep[k - 1].split(" ")
+        mc_ = unbits(t[:3 * nn]).reshape(nn, 3)
+        me = unbits(t[3 * nn:4 * nn])
+        mw = [int(x) for x in t[4 * nn:]]
+        cmp("rbdispchk-coords", "coords", inp, coords, mc_, max(c["L"], 1e-300))
+        cmp("rbdispchk-errs", "errs", inp, errs, me, max(c["L"], 1e-300))
+        warned = sorted((int(m) - 1) // 3 for m in re.findall(r"starting at row (\d+)", txt))
+        thr = np.abs(mc_).max(axis=1) * c["tol"]
+        if np.any((np.abs(me - thr) <= 1e-6 * thr + 1e-15 * c["L"]) & ~((me == 0) & (thr == 0))):
+            ctx.skip("rbdispchk: a node sits on the warning threshold")
+        elif warned != [j for j in range(nn) if mw[j]]:
+            ctx.disagree("rbdispchk-warn", inp, warned, [j for j in range(nn) if mw[j]])
+        for kd in set(x.rsplit("-", 1)[1] for x in c["kinds"]):
+            ctx.count("rbdisp:" + kd)
+        if warned:
+            ctx.count("rbdisp:warned")
+        ctx.case(("rbdisp", rep[k - 1][:60]), nontrivial=bool(np.any(c["d"] != 0)))
+    # I
+    for c in nt_cases:
+        nb_, opt = c["nb_"], c["opt"]
+        case = nb_["case"]
+        n, nb = case["n"], case["nb"]
+        vm = unbits(rep[k].split(" ")).reshape(2, 6, n)
+        vk = unbits(rep[k + 1].split(" ")).reshape(2, 6, n)
+        k += 2
+        inp = {"spec": c["spec"], "opt": opt}
+        ctx.case(("netdrm", json.dumps(inp, sort_keys=True)))
+        for t_, on in (("conv", opt["conv"] is not None), ("bsubset", opt["sub"]), ("sccoord", opt["sccoord"]), ("plain", True)):
+            if on:
+                ctx.count("netdrm:" + t_)
+        try:
+            res, _ = run_net(nb_, opt["conv"])
+        except Exception as e:  # noqa: BLE001
+            ctx.disagree("mk_net_drms", inp, "exception %s: %s" % (type(e).__name__, str(e)[:200]), "a result")
+            continue
+        T6 = np.eye(6)
+        if nb_["sccoord"] is not None:
+            T6 = np.block([[nb_["sccoord"].T, np.zeros((3, 3))], [np.zeros((3, 3)), nb_["sccoord"].T]])
+        bset = np.asarray(nb_["bset"])
+        cmp("mk_net_drms-ifltma_sc", "ifltma_sc", inp, res.ifltma_sc, vm[0])
+        cmp("mk_net_drms-ifltma_lv", "ifltma_lv", inp, res.ifltma_lv, T6 @ vm[1])
+        ksc = max(np.abs(case["Kin"]).max(), 1e-300) * max(1.0, np.abs(res.rb_all).max())
+        cf = conv_factors(opt["conv"])
+        lc, mc = cf if cf else (1.0, 1.0)
+        cmp("mk_net_drms-ifltmd_sc", "ifltmd_sc", inp, res.ifltmd_sc, vk[0][:, bset], ksc * max(1.0, 1 / lc))
+        cmp("mk_net_drms-ifltmd_lv", "ifltmd_lv", inp, res.ifltmd_lv, T6 @ vk[1][:, bset], ksc * mc * lc * max(lc, 1.0))
+        cmp("mk_net_drms-stack", "ifltma rows", inp, res.ifltma, np.vstack((res.ifltma_sc, res.ifltma_lv)), None, 1e-15)
+    # J
+    for c in rm_cases:
+        got, _ = run_rbmult(c)
+        want = unbits(rep[k].split(" ")).reshape(-1, 6)
+        k += 1
+        cmp("rbmultchk", "drmrb", {"mode": c["mode"], "bset": c["bs"], "drm": c["drm"].tolist(), "rb": c["rb"].tolist()}, got, want,
+            None, 1e-12)
+        ctx.case(("rbmult", rep[k - 1][:60]), branch="rbmult:" + c["mode"])
+    # K
+    for c in c0_cases:
+        tf = run_cbtf0(c)
+        nb, nt = len(c["bset"]), c["M"].shape[0]
+        v = unbits(rep[k].split(" "))
+        k += 1
+        frc, rhs = v[:nb], v[nb:]
+        bset = np.array(c["bset"])
+        qset = np.setdiff1d(np.arange(nt), bset)
+        inp = {"bset": c["bset"], "layout": c["layout"], "freq": c["freq"], "a": c["a"].tolist(), "M": c["M"].tolist(), "K": c["K"].tolist()}
+        cmp("cbtf-static-frc", "frc at 0 Hz", inp, np.real(tf.frc[:, 0]), frc)
+        # specification of fsolve at 0 Hz: Kqq dq = rhs (the harness solves the model's right-hand side)
+        dq = np.linalg.solve(c["K"][np.ix_(qset, qset)], rhs)
+        cmp("cbtf-static-dq", "modal displacement at 0 Hz", inp, np.real(tf.d[qset, 0]), dq)
+        if np.abs(tf.d[bset, 0]).max() != 0 or np.abs(tf.v[:, 0]).max() != 0 or np.abs(np.imag(tf.frc[:, 0])).max() > 1e-12 * np.abs(frc).max():
+            ctx.disagree("cbtf-static-zero", inp, "non-zero boundary displacement / velocity / imaginary force at 0 Hz", "zero")
+        ctx.case(("cbtf0", rep[k - 1][:60]), branch="cbtf0:b" + c["layout"] + ("-permuted" if c["bset"] != sorted(c["bset"]) else ""))
+    if k != len(rep):
+        raise Infra("C06: %d replies consumed of %d" % (k, len(rep)))
     ctx.extra["worst_relative_difference"] = cmp.worst
     ctx.require_branches([
         "cgmass:doc-unequal", "cgmass:rigid-equal", "rbgeom:ref-index", "rbgeom:ref-vector",
@@ -1331,6 +1961,15 @@ def correspondence(ctx):
         "variant:grounded", "variant:perturbed", "conv:None", "conv:m2e", "conv:e2m", "conv:tuple",
         "uref:id", "uref:vec", "uref:origin", "rbnorm:None", "rbnorm:True", "rbnorm:False",
         "reorder:True", "reorder:False", "gridperm:non-involution", "mass:unequal-translational",
+        # extension round
+        "variant:grounded1", "special:massless6", "special:massless-rot", "special:pinned",
+        "coordchk:zero-stiffness-trimmed", "solve_eig:null-columns-trimmed", "solve_eig:massless-guyan-reduced",
+        "cbcheck:raises-refpoint-zero-stiffness",
+        "solve_eig-direct:none", "solve_eig-direct:null", "solve_eig-direct:massless", "solve_eig-direct:both",
+        "rbdisp:exact", "rbdisp:small", "rbdisp:large", "rbdisp:warned",
+        "netdrm:plain", "netdrm:conv", "netdrm:bsubset", "netdrm:sccoord",
+        "rbmult:first", "rbmult:last", "rbmult:vector", "rbmult:full",
+        "cbtf0:bfirst", "cbtf0:blast", "cbtf0:bmixed",
     ])
 
 
@@ -1981,8 +2620,94 @@ def probe_noreorder(seed):
     return out, spec
 
 
+def probe_net_reorder(seed):
+    """mk_net_drms(reorder=True) against the same call on the sorted b-set: the recovery matrices must be the same up
+    to the column permutation.  New finding: with a boundary order that is not its own inverse the uset is permuted
+    with np.argsort(bset) - the inverse of the permutation cbreorder applies (the defect F26 repaired in cbcheck)."""
+    from pyyeti import cb
+
+    out = []
+    rng = np.random.default_rng(seed)
+    spec = gen_spec(rng)
+    nbg = int(rng.choice([2, 3, 3, 4]))
+    spec.update(nbg=nbg, ngrids=nbg + int(rng.integers(1, 4)), variant="valid", reorder=True, conv=None, uref="origin",
+                rbnorm=None, brefgrid=0, layout=str(rng.choice(["first", "last", "mixed"])))
+    spec["nq"] = max(1, spec["nq"])
+    spec["gridperm"] = [int(x) for x in rng.permutation(nbg)]
+    return probe_net_reorder_spec(spec, True)
+
+
+def probe_net_reorder_spec(spec, with_kind=False):
+    from pyyeti import cb
+
+    out = []
+    perm, nbg = spec["gridperm"], spec["nbg"]
+    case = build_case(spec)
+    inp = {"kind": "netdrm-reorder-probe", "spec": spec}
+    inv = [perm.index(i) for i in range(nbg)]
+    kind = "sorted" if perm == sorted(perm) else ("involution" if inv == perm else "non-involution")
+    fam = "mk_net_drms-reorder-uset-order-not-involution" if kind == "non-involution" else "mk_net_drms-reorder-" + kind
+    n, nb = case["n"], case["nb"]
+    bset = case["bseto"]
+    uset = case["uset"]  # rows in ascending matrix position (physical grid order), as cbcheck takes it
+    with warnings.catch_warnings():
+        warnings.simplefilter("ignore")
+        try:
+            indep = 123456 if nbg == 2 else None  # (an RBE3 on the translations of two grids is rank deficient)
+            r1 = cb.mk_net_drms(case["Min"].copy(), case["Kin"].copy(), bset.copy(), uset=uset, ref=[0, 0, 0], reorder=True,
+                                rbe3_indep_dof=indep)
+            r0 = cb.mk_net_drms(case["Min"].copy(), case["Kin"].copy(), np.sort(bset), uset=uset, ref=[0, 0, 0], reorder=False,
+                                rbe3_indep_dof=indep)
+        except Exception as e:  # noqa: BLE001
+            _fail(out, fam + "-raises-" + type(e).__name__, "mk_net_drms raises", inp, repr(e)[:200], "a result")
+            return (out, kind) if with_kind else out
+    pv = np.concatenate([bset, np.setdiff1d(np.arange(n), bset)])
+    for nm in ("ifltma_sc", "ifatm_sc", "cgatm_sc"):
+        a, b = getattr(r1, nm), getattr(r0, nm)[:, pv]
+        if not _close(a, b, 1e-9, max(np.abs(b).max(), 1e-300))[0]:
+            _fail(out, fam, "mk_net_drms(reorder=True).%s differs from the result for the sorted b-set with its columns "
+                  "permuted the same way: recovered net responses change under boundary reordering" % nm, inp,
+                  float(np.abs(a - b).max()), "0 (1e-9 relative; max |.| = %g)" % np.abs(b).max())
+            break
+    return (out, kind) if with_kind else out
+
+
+def probe_nomodes(seed):
+    """cbcheck on a Craig-Bampton model with NO retained modes (Guyan reduction only).  New finding: _values_check
+    takes np.max of the empty MQQ diagonal -> ValueError, although cbcheck has an explicit branch for nq = 0."""
+    out = []
+    rng = np.random.default_rng(seed)
+    spec = gen_spec(rng)
+    if spec["nbg"] < 2:
+        spec["nbg"] += 1
+        spec["ngrids"] += 1
+        spec["gridperm"] = list(range(spec["nbg"]))
+    spec.update(nq=0, variant="valid", reorder=True)
+    for f in oracle_cbcheck(spec):
+        if "raises-ValueError" in f["family"]:
+            f = dict(f, family="cbcheck-no-modal-dof-raises-ValueError")
+        f["input"] = {"kind": "cbcheck-nomodes-probe", "spec": spec}
+        out.append(f)
+    return out
+
+
 def _run_kind(inp):
     k = inp["kind"]
+    if k == "solve_eig":
+        return oracle_solve_eig(inp)
+    if k == "rbdisp":
+        return oracle_rbdisp(inp)
+    if k == "netdrm":
+        return oracle_net(inp)
+    if k == "rbmult":
+        return oracle_rbmult(inp["seed"])
+    if k == "cbtf0":
+        return oracle_cbtf0(inp)
+    if k == "netdrm-reorder-probe":
+        return probe_net_reorder_spec(inp["spec"])
+    if k == "cbcheck-nomodes-probe":
+        return [dict(f, family="cbcheck-no-modal-dof-raises-ValueError" if "raises-ValueError" in f["family"] else f["family"],
+                     input=inp) for f in oracle_cbcheck(inp["spec"])]
     if k == "cbcheck":
         return oracle_cbcheck(inp["spec"])
     if k == "cbcheck-noreorder-probe":
@@ -2047,6 +2772,35 @@ def search(ctx, hints):
     for i in range(ctx.pick(60, 600)):
         fails += oracle_cbtf([ctx.seed, 77, i])
         ctx.count("oracle:cbtf")
+    rng = ctx.np_rng(7)
+    for c in eig_cases(rng, ctx.pick(40, 400)):
+        if c["massless"] and np.linalg.cond(c["k"][np.ix_(c["massless"], c["massless"])]) > 1e6:
+            continue
+        fails += oracle_solve_eig(c)
+        ctx.count("oracle:solve_eig")
+    rng = ctx.np_rng(8)
+    for c in rbdisp_cases(rng, ctx.pick(150, 1500)):
+        fails += oracle_rbdisp(c)
+        ctx.count("oracle:rbdispchk")
+    rng = ctx.np_rng(9)
+    for c in net_cases(rng, ctx.pick(40, 300)):
+        fails += oracle_net(c)
+        ctx.count("oracle:mk_net_drms")
+    for i in range(ctx.pick(60, 600)):
+        fails += oracle_rbmult([ctx.seed, 55, i])
+        ctx.count("oracle:rbmultchk")
+    rng = ctx.np_rng(11)
+    for c in cbtf0_cases(rng, ctx.pick(60, 600)):
+        fails += oracle_cbtf0(c)
+        ctx.count("oracle:cbtf-static")
+    for i in range(ctx.pick(10, 50)):
+        f, kind = probe_net_reorder([ctx.seed, 98, i])
+        fails += f[:1]
+        ctx.count("oracle:probe-netdrm-reorder-%s-%s" % (kind, "fails" if f else "holds"))
+    for i in range(ctx.pick(3, 12)):
+        f = probe_nomodes([ctx.seed, 97, i])
+        fails += f[:1]
+        ctx.count("oracle:probe-cbcheck-nomodes-" + ("fails" if f else "holds"))
     nprobe = 0
     for i in range(ctx.pick(12, 60)):
         f, spec = probe_noreorder([ctx.seed, 99, i])
